@@ -57,6 +57,11 @@ def domain_inputs(tier: str, seed: int, doms: str = "XRBS", scale: float = 1.0) 
             fns = rng.sample(fns, min(lim, len(fns)))
         for ident, _ in fns:
             out.append({"dom": "B", "fn": ident})
+    if "N" in doms:
+        # closed CFGs whose block names lie in the name generator's own namespace
+        from .checks.c18 import namespace_inputs
+
+        out += namespace_inputs(seed, int((120 if quick else 1000) * scale))
     if "S" in doms:
         from . import pygen
 
